@@ -111,3 +111,92 @@ def sincos_pi_concrete(p, m):
         return True, ''
     ok = (tuple(map(tuple, r)) == want) if which == 0 else (tuple(r) == want)
     return ok, 'mpf_cos_sin(%r, which=%d, pi=True) = %r, expected %r' % (x, which, r, want)
+
+
+# ------------------------------------------------------------------------------ final rounding of elementary kernels (C10)
+def kernel_bits(p):
+    """shortcut branches of elementary kernels that hand back (a function of) another kernel's result or of the argument:
+    the value returned to the caller is canonical with at most `prec` bits.  Inner series kernels are stubs returning an
+    ARBITRARY canonical mpf of exactly the precision they were asked for."""
+    from mpmath.libmp import libelefun, libmpf
+    from pysym.engine import NORMAL
+    case, prec, rnd = p['case'], p['prec'], p['rnd']
+    ob = Ob(wbump(p, prec + 120), timeout_s=p.get('_t', 60))
+    cnt = [0]
+
+    def stub(eng, st, args, kw, fr):
+        # (x, prec[, rnd]) -> arbitrary positive canonical mpf with exactly `prec` bits
+        q = args[1]
+        if not isinstance(q, int):
+            raise Unsupported('stubbed kernel called with a symbolic precision')
+        cnt[0] += 1
+        n0 = len(ob.assume)
+        t = ob.mpf('k%d' % cnt[0], q, sign=0)
+        G.SIDE.extend(ob.assume[n0:])          # created after the run started: its range/parity facts go to the side facts
+        return [(st, NORMAL, t)]
+
+    def stub_fixed(eng, st, args, kw, fr):
+        q = args[0]
+        cnt[0] += 1
+        n0 = len(ob.assume)
+        t = ob.int('fx%d' % cnt[0], 1 << (q - 2), (1 << (q + 2)) - 1)
+        G.SIDE.extend(ob.assume[n0:])
+        return [(st, NORMAL, t)]
+    if case == 'cosh_large':
+        x = ob.mpf('x', 3, exp=9)
+        ob.eng.models[libelefun.mpf_exp] = stub
+        outs = ob.run(libelefun.mpf_cosh_sinh, [x, prec, rnd])
+    elif case == 'tanh_large':
+        x = ob.mpf('x', 3, exp=9)
+        outs = ob.run(libelefun.mpf_cosh_sinh, [x, prec, rnd, 1])
+    elif case == 'exp_tiny':
+        x = ob.mpf('x', 40, exp=-(prec + 80))
+        outs = ob.run(libelefun.mpf_exp, [x, prec, rnd])
+    elif case == 'cos_sin_tiny':
+        x = ob.mpf('x', 40, exp=-(prec + 80))
+        outs = ob.run(libelefun.mpf_cos_sin, [x, prec, rnd])
+    elif case == 'tan_tiny':
+        x = ob.mpf('x', 40, exp=-(prec + 80))
+        outs = ob.run(libelefun.mpf_cos_sin, [x, prec, rnd, 3])
+    elif case == 'atan_tiny':
+        x = ob.mpf('x', 40, exp=-(prec + 90))
+        outs = ob.run(libelefun.mpf_atan, [x, prec, rnd])
+    elif case == 'sinh_tiny':
+        x = ob.mpf('x', 40, exp=-(prec + 80))
+        outs = ob.run(libelefun.mpf_cosh_sinh, [x, prec, rnd])
+    elif case == 'log_pow2':
+        e = ob.int('e', 1, 1 << 20)
+        ob.eng.models[libelefun.ln2_fixed] = stub_fixed
+        outs = ob.run(libelefun.mpf_log, [(0, 1, e, 1), prec, rnd])
+    else:
+        raise Unsupported(case)
+
+    def ok(c):
+        return z3.Or(is_tuple(c, FZERO), canonical(c, prec))
+
+    def good(val, st):
+        if isinstance(val, tuple) and len(val) == 2 and isinstance(val[0], tuple):
+            return [ok(val[0]), ok(val[1])]
+        return ok(val)
+    return finish(ob, ob.prove(outs, good))
+
+
+def kernel_bits_concrete(p, m):
+    """run the real kernel on inputs of the obligation's shape (the stubbed inner kernels run for real)"""
+    from mpmath.libmp import libelefun
+    case, prec, rnd = p['case'], p['prec'], p['rnd']
+    xm = m.get('x_man', 5)
+    xs = m.get('x_sign', 0)
+    if case in ('cosh_large', 'tanh_large'):
+        x = (xs, xm if xm.bit_length() == 3 else 5, 9, 3)
+        r = libelefun.mpf_cosh_sinh(x, prec, rnd, 1 if case == 'tanh_large' else 0)
+    elif case == 'log_pow2':
+        r = libelefun.mpf_log((0, 1, m.get('e', 7), 1), prec, rnd)
+    else:
+        x = (xs, xm, -(prec + (90 if case == 'atan_tiny' else 80)), xm.bit_length())
+        r = {'exp_tiny': lambda: libelefun.mpf_exp(x, prec, rnd), 'cos_sin_tiny': lambda: libelefun.mpf_cos_sin(x, prec, rnd),
+             'tan_tiny': lambda: libelefun.mpf_cos_sin(x, prec, rnd, 3), 'atan_tiny': lambda: libelefun.mpf_atan(x, prec, rnd),
+             'sinh_tiny': lambda: libelefun.mpf_cosh_sinh(x, prec, rnd)}[case]()
+    parts = list(r) if (isinstance(r, tuple) and len(r) == 2 and isinstance(r[0], tuple)) else [r]
+    bad = [c for c in parts if not O.canonical_concrete(tuple(c), prec)]
+    return not bad, '%s at prec %d returned a mantissa of %s bits' % (case, prec, [c[3] for c in parts])
